@@ -88,6 +88,12 @@ func body(r *sim.Run) {
 		"sid42", "desiree", "user_id = @alice:a.example", "time < 99999999999", "gen = 1", " @alice:a.example"}
 	// validation may also name users no token was issued for: a proper prefix
 	// of an issued user ID and the empty user ID
+	// user IDs at the lengths where a length prefix grows (a Matrix user ID may
+	// be up to 255 bytes): 127 / 128 / 129 / 200 / 255 bytes
+	for _, n := range []int{127, 128, 129, 200, 255} {
+		const tail = ":long.example"
+		users = append(users, "@"+strings.Repeat("l", n-1-len(tail))+tail)
+	}
 	askUsers := append([]string{"@alice:a.exampl", "@alice:a.example.o", "", "42", "d42", "@alice:a.example ", "alice:a.example"}, users...)
 	// Start at a tape-chosen second inside the minute / hour so that minute
 	// and hour boundaries are crossed at varied offsets.
